@@ -4,6 +4,7 @@ import (
 	"fmt"
 	"go/types"
 	"math/big"
+	"regexp"
 	"sort"
 	"strings"
 )
@@ -73,8 +74,18 @@ func basicWidth(b *types.Basic) (int, bool, bool) { // width, signed, ok
 // typeKey is the canonical name of a type.  Type arguments of generic named types
 // are erased (lockedMap[V] and lockedMap[_] are the same heap region): inside the
 // generic bodies that are verified, a generic type only occurs at its own parameters.
+var reByte = regexp.MustCompile(`\bbyte\b`)
+var reRune = regexp.MustCompile(`\brune\b`)
+
 func typeKey(t types.Type) string {
 	s := types.TypeString(t, func(p *types.Package) string { return p.Path() })
+	// byte and rune are aliases: one heap region per underlying type
+	if strings.Contains(s, "byte") {
+		s = reByte.ReplaceAllString(s, "uint8")
+	}
+	if strings.Contains(s, "rune") {
+		s = reRune.ReplaceAllString(s, "int32")
+	}
 	if !strings.Contains(s, "[") {
 		return s
 	}
